@@ -112,6 +112,10 @@ FINDINGS = [
          what="'//' and '%' with a negative operand use C truncation, '**' is emitted verbatim (does not compile), and 'and'/'or' yield 0/1 instead of the operand value",
          cases=[prog("C01", P + AB + "mon.write(a // 2)\nmon.write(a % 3)\n", [{"passes": 0, "ar": {"A0": [3], "A1": [12]}}], "a = -7: a // 2 and a % 3"),
                 prog("C01", P + AB + "mon.write(a and b)\nmon.write(a or b)\n", [{"passes": 0, "ar": {"A0": [3], "A1": [12]}}], "a and b / a or b with integer operands")]),
+    dict(id="KF-C01-list-value-semantics", property="C01", status="open", commit=None,
+         what="lists have value semantics on the device: 'M = L' and a list passed to a helper are copies, so a later append through one name is not seen through the other (Python aliases)",
+         cases=[prog("C01", P + AB + "L = [a, 2, 3]\nM = L\nL.append(9)\nmon.write(len(M))\nmon.write(M[-1])\n", [{"passes": 0, "ar": {"A0": [3], "A1": [12]}}], "M = L; L.append(9); len(M)"),
+                prog("C01", P + "def grow(v):\n    v.append(5)\n" + AB + "L = [a, 2]\ngrow(L)\nmon.write(len(L))\n", [{"passes": 0, "ar": {"A0": [3], "A1": [12]}}], "helper appending to its list parameter")]),
     dict(id="KF-C15-chained-comparison-double-read", property="C15", status="open", commit=None,
          what="a chained comparison evaluates its middle operand twice on the device: 100 < pot.read() < 900 performs two analogRead()s for one read()",
          cases=[prog("C15", c15.PRO + 'pot = Potentiometer("A0")\nwhile True:\n    if 100 < pot.read() < 900:\n        mon.write("mid")\n    else:\n        mon.write("out")\n',
